@@ -47,6 +47,7 @@ def parse_items(src, toks, i, end):
     """Parse items in toks[i:end] (one nesting level)."""
     items = []
     while i < end:
+        attr_tok = i
         i = skip_attrs(toks, i)
         if i >= end:
             break
@@ -75,7 +76,7 @@ def parse_items(src, toks, i, end):
                 j += 1
             if toks[j].text == '{':
                 j = match_close(toks, j)
-            items.append(Item(kw, None, name, src[toks[start_tok].start:toks[j].end], toks[start_tok].start))
+            items.append(Item(kw, None, name, src[toks[attr_tok].start:toks[j].end], toks[start_tok].start))
             i = j + 1
         elif kw == 'type':
             name = toks[i + 1].text
